@@ -8,7 +8,8 @@ import implobs
 from gens.programs import Opts, Gen
 
 THEOREMS = ['flags_nested', 'unbounded_flags', 'getResult_choice_not_infinite', 'maybeResult_flags_nested', 'maybeResult_bounded_has_choice',
-            'reported_choices_valid_for_dependencies']
+            'reported_choices_valid_for_dependencies', 'loop_mode_bound_is_a_valid_derivation',
+            'loop_mode_partial_results_are_valid_derivations']
 RULE = ('while / do-while / counted for loops at any nesting depth of generated functions, each analysed by the real '
         'LoopAnalysis.inspect on its own; per variable: flags, bound and the choice object are handed to the Lean '
         'predicate check.C08, which looks among the reported choices (all 3^k tabulated, k<=6) for one at which the '
